@@ -291,6 +291,89 @@ def run(loader, R, tier):
                     % (key, ", ".join(short(x) for x in Xs[:4])))
     R.floor("handlers of the C printers", n4, 100)
 
+    # ---------------------------------------------------------------- R15.6
+    # a node printed *as another expression* (cot(x) as 1/tan(x), an
+    # UnevaluatedExpr as its argument) keeps the binding strength that the
+    # Precedence visitor reports for the original node; the parent decides on
+    # parentheses with that, so the replacement must bind at least as tightly
+    R.rule("R15.6", "a node printed through a replacement expression binds "
+                    "as tightly as Precedence reports for the node")
+    LEVEL = {"add": "Add", "sub": "Add", "mul": "Mul", "div": "Mul",
+             "neg": "Mul", "pow": "Pow"}
+    ORDER = ["Relational", "Add", "Mul", "Pow", "Atom"]
+    PREC = "SymEngine::Precedence"
+    if PREC not in V.table:
+        raise AnalysisBroken("Precedence visitor has no dispatch table")
+    seen6 = {}
+    for u, f in sorted(prog.functions.items(), key=lambda kv: kv[1]["qn"]):
+        if f.get("dependent") or f["n"] not in ("visit", "bvisit") \
+                or not f.get("body") or len(f.get("params", ())) != 1:
+            continue
+        cls = f.get("cls") or ""
+        owner = cls
+        if cls.startswith("SymEngine::RewriteTrigVisitor<"):
+            owner = cls[len("SymEngine::RewriteTrigVisitor<"):].split(",")[0]
+        if not any(prog.derives(owner, p) for p in FAMILY):
+            continue
+        st = [x for x in f["body"].get("s", ()) if x.get("k") != "null"]
+        if len(st) != 1 or st[0].get("k") != "expr":
+            continue
+        e = st[0]["e"]
+        repl = None
+        if e.get("k") == "mcall" and e.get("n") == "accept":
+            repl = e.get("o")
+        elif e.get("k") in ("op", "bin") and e.get("op") == "=" \
+                and e["a"][0].get("k") == "mem" \
+                and e["a"][0].get("m") == "str_" \
+                and e["a"][1].get("k") == "mcall" \
+                and e["a"][1].get("n") == "apply" and e["a"][1].get("a"):
+            repl = e["a"][1]["a"][0]
+        if repl is None:
+            continue
+        while repl.get("k") in ("op", "un", "cast", "ctor") \
+                and len(repl.get("a", ())) == 1:
+            repl = repl["a"][0]
+        X = strip_type(f["params"][0]["t"])
+        if repl.get("k") == "call":
+            level = LEVEL.get(repl.get("n"), "Atom")
+            how = "%s(...)" % repl.get("n")
+        elif repl.get("k") == "mcall" and (repl.get("o") or {}).get(
+                "k") == "ref" and repl["o"].get("d") == "param":
+            level = "child"
+            how = "its operand %s()" % repl.get("n")
+        else:
+            continue
+        ph = prog.functions.get(V.handlers(PREC).get(X))
+        if ph is None:
+            continue
+        pt = strip_type(ph["params"][0]["t"])
+        if pt == "SymEngine::Basic":
+            px = "Atom"
+        elif any(n.get("k") == "mcall" and n.get("n") == "accept"
+                 for n in walk(ph["body"])):
+            px = "delegates"
+        else:
+            continue            # computed per value (Add/Mul/Pow/numbers)
+        key = short(X)
+        if key in seen6:
+            continue
+        seen6[key] = 1
+        R.instance("R15.6", key, sample={
+            "class": key, "printed_as": how, "replacement_level": level,
+            "precedence_reported": px, "handler": short(f["qn"])})
+        if px == "Atom" and (level == "child" or ORDER.index(level)
+                             < ORDER.index("Atom")):
+            R.violation(
+                "R15.6", key, prog.loc(f),
+                "%s prints %s as %s (binding like %s) while Precedence "
+                "reports Atom for %s: a parent that divides by it, "
+                "multiplies it or raises it to a power omits the "
+                "parentheses and the generated code computes a different "
+                "value" % (short(f["qn"]), key, how,
+                           "an arbitrary expression" if level == "child"
+                           else "a " + level, key))
+    R.floor("nodes printed through a replacement expression", len(seen6), 10)
+
 
 MANIFEST = dict(
     technique="table agreement (dispatch table x printer name table x "
